@@ -9,9 +9,7 @@
 (* "init": a fresh channel initialised under the given configuration text;  *)
 (* "reinit": the channel initialised from BaseLines and re-initialised      *)
 (* under it.  The run is accepted iff every event is explained             *)
-(* (POSTCONDITION Accepted).  Two tolerances, both decided by C16, are part *)
-(* of the acceptance: `use-vc` may be missing from the flags, link-local   *)
-(* servers may be missing from the server list.                             *)
+(* (POSTCONDITION Accepted).                                               *)
 (***************************************************************************)
 EXTENDS Config, Json, IOUtils
 
@@ -35,12 +33,11 @@ Fallback(ev) == IF ev.e = "init" THEN <<Srv("127.0.0.1", 53, 53, "")>> ELSE Base
 Explained(ev) ==
   LET c == ChanOf(ev)
       o == ev.obs
-  IN /\ (SetOf(o.flags) \in c.flags \/ (SetOf(o.flags) \cup {"USEVC"}) \in c.flags)
+  IN /\ SetOf(o.flags) \in c.flags
      /\ InAllowed(o.timeout, c.timeout) /\ InAllowed(o.tries, c.tries) /\ InAllowed(o.ndots, c.ndots)
      /\ o.rotate = c.rotate
      /\ o.domains = c.domains /\ o.lookups = c.lookups /\ o.sortlist = c.sortlist
-     /\ \/ o.servers = c.servers
-        \/ o.servers = (IF NoLL(c.servers) = <<>> THEN Fallback(ev) ELSE NoLL(c.servers))
+     /\ o.servers = c.servers
 
 Init == l = 1
 Next == l <= Len(Tr) /\ Explained(Tr[l]) /\ l' = l + 1
